@@ -226,6 +226,10 @@ func (v *objectTreeValidator) validateChange(tree *Tree, aclList list.AclList, c
 }
 
 func ValidateRawTreeDefault(payload treestorage.TreeStorageCreatePayload, storageCreator TreeStorageCreator, aclList list.AclList) (objTree ObjectTree, err error) {
+	if payload.RootRawChange == nil {
+		// e.g. a peer's answer to a tree request that came without the root
+		return nil, ErrEmptyChange
+	}
 	ctx := context.Background()
 	treeStorage, err := storageCreator.CreateStorageWithDeferredCreation(ctx, treestorage.TreeStorageCreatePayload{
 		RootRawChange: payload.RootRawChange,
